@@ -80,6 +80,14 @@ def cases(spec, ctx):
             r["prim"] = r["mat"] = r["tf"] = None
             if rng.random() < 0.5:
                 r["range"] = None
+        if r["qm"] is None and rng.random() < 0.25:
+            # an explicitly supplied matrix that happens to equal the default one is still a custom matrix
+            from vc2_data_tables import QUANTISATION_MATRICES, WaveletFilters
+
+            dm = QUANTISATION_MATRICES.get((WaveletFilters(r["wi"]), WaveletFilters(r["wih"]), r["d"], r["dh"]))
+            if dm is not None:
+                r["qm"] = {str(l): dict(o) for l, o in dm.items()}
+                r["qm_equals_default"] = True
         table = {}
         triv = {"profile": (r["profile"], [0, 3]), "picture_coding_mode": (r["pcm"], [0, 1]), "wavelet_index": (r["wi"], list(range(7))),
                 "dwt_depth": (r["d"], [0, 1, 2, 3]), "slices_x": (r["sx"], [1, 2, 3]), "slices_y": (r["sy"], [1, 2, 3]),
@@ -211,6 +219,8 @@ def run_case(case, ctx):
             ctx.seen(key, nontrivial=False)
             return
         ctx.count("encoder_returned")
+        if r.get("qm_equals_default"):
+            ctx.count("explicit_matrix_equal_to_default")
         try:
             data = vc2util.serialise([seq])
         except Exception as e:
